@@ -25,6 +25,9 @@ type recvSpec struct {
 type reqSpec struct {
 	Post      bool `json:"post,omitempty"` // HTTP: POST with a small body instead of GET
 	UpDelayUs int  `json:"up_delay_us,omitempty"`
+	// UpRetry (HTTP/1 with a retry policy on the routes): the upstream answers the first attempt of a forwarded
+	// request with 503, which the proxy retries; the second attempt is answered 200
+	UpRetry bool `json:"up_retry,omitempty"`
 }
 
 type chainCase struct {
@@ -55,6 +58,7 @@ func genCase(rt *rapid.T, misplaced bool) chainCase {
 		c.Reqs = append(c.Reqs, reqSpec{
 			Post:      rapid.IntRange(0, 3).Draw(rt, "post") == 0,
 			UpDelayUs: rapid.SampledFrom([]int{0, 0, 0, 300, 2000, 8000}).Draw(rt, "upDelay"),
+			UpRetry:   c.RetryOn && c.Proto == "Http1" && rapid.IntRange(0, 2).Draw(rt, "upRetry") == 0,
 		})
 	}
 	if c.Proto == "bolt" {
@@ -144,6 +148,7 @@ type expect struct {
 	Misplaced int    // re-match / re-choose verdicts executed in a phase that does not honour them
 	Kinds     []byte // executed non-continue verdict letters
 	NonTriv   bool   // a non-continue verdict executed by a filter at position >= 2
+	Retried   bool   // the first upstream response was retried (see retried)
 }
 
 func verdictAt(sc []string, n int) string {
@@ -243,5 +248,31 @@ phases:
 	for j := 0; j < c.Send; j++ {
 		e.Calls = append(e.Calls, call{Kind: "s", Idx: j, N: 0, Marker: e.Marker, Body: e.Body})
 	}
+	return e
+}
+
+// retried applies to a forwarded request whose first upstream response (503) is retried: the response the client
+// gets is the second attempt's, and it passes every send filter once, in order. Whether the discarded first
+// response is shown to the send filters as well is not pinned ("once per response": it is a response, but it is
+// never delivered); both are accepted: discardedPass selects the reading.
+func retried(c *chainCase, r int, tok string, e expect, discardedPass bool) expect {
+	if e.Outcome != "up" || !c.Reqs[r].UpRetry {
+		return e
+	}
+	calls := e.Calls[:len(e.Calls)-countSend(e.Calls)]
+	calls = append([]call(nil), calls...)
+	n := 0
+	if discardedPass {
+		for j := 0; j < c.Send; j++ {
+			calls = append(calls, call{Kind: "s", Idx: j, N: 0, Body: "up1:" + tok})
+		}
+		n = 1
+	}
+	calls = append(calls, call{Kind: "lb"}) // the retry selects a host again
+	for j := 0; j < c.Send; j++ {
+		calls = append(calls, call{Kind: "s", Idx: j, N: n, Body: "up:" + tok})
+	}
+	e.Calls = calls
+	e.Retried = true
 	return e
 }
